@@ -31,8 +31,8 @@ CHECKS = {
     ),
     "C02": (
         "exploration",
-        "schedule search with a deterministic scheduler (bounded-preemption DFS for 2 actors, PCT + seeded random for 3-4) over claim/run scenarios; history invariant from a monitor replayed through the lifecycle model",
-        "Pollers (get_invocations_to_run + run) and releasing actors (retry, pending-recovery task, kill-and-reroute) run as actors of a scheduler that owns the interleaving at source-line (Mem) / SQL-statement (SQLite) granularity; every explored execution's log of accepted transitions must be a run of the reference lifecycle model (no claim without release, no move of an owned invocation by a non-owner), every yielded id must match a claim, task bodies must not overlap without kill/recovery.",
+        "schedule search with a deterministic scheduler (bounded-preemption DFS for 2 actors and for the 3-party critical-section scenario, PCT + seeded random for 3-4) over 14 claim/run/release scenarios; history invariant from a monitor replayed through the lifecycle model",
+        "Pollers (get_invocations_to_run + run) and releasing actors (retry, pending-recovery task, kill-and-reroute) run as actors of a scheduler that owns the interleaving at source-line (Mem) / SQL-statement (SQLite) granularity; every explored execution's log of accepted transitions must be a run of the reference lifecycle model (no claim without release, no move of an owned invocation by a non-owner), every yielded id must match a claim, task bodies must not overlap without kill/recovery. Scenarios include a stale request of the old owner overlapping a complete release + re-claim (status back to the same value under another owner) and an owner releasing while two pollers hold a copy of the id (complete for <= 2 forced switches at the critical-section functions).",
         "Trusted: scheduler stand-ins for threading/sqlite busy-wait/clock (DESIGN 2.1); exhaustive only for 2 actors with <= 1 (thorough 2) forced switches up to the stated run limit; preemption inside a line/statement not modelled.",
         "DESIGN.md 3 C02, 2.1, A.2",
     ),
@@ -115,8 +115,8 @@ CHECKS = {
     ),
     "C19": (
         "exploration",
-        "metamorphic/differential execution of Hypothesis-generated task programs in three modes (sync, Mem + ThreadRunner, SQLite + ThreadRunner under a deterministic scheduler) plus a reference interpreter of the retry rules",
-        "Each generated program (returns, scripted retriable / non-retriable raises on chosen attempts, nested .result calls, parallelize groups; plain and direct_task flavours; max_retries 0..3; retry_for subsets) is run inline in dev sync mode and distributed on both stacks with the real runner loop in virtual time: outcomes (value or exception type+args) and per-node body-execution counts must be equal across modes and equal to the denotation (always-retriable: max_retries+1 executions then failure; success on attempt k: k executions; non-retriable: 1).",
+        "metamorphic/differential execution of Hypothesis-generated task programs in three modes (sync, Mem + ThreadRunner, SQLite + ThreadRunner under a deterministic scheduler) plus a reference interpreter of the retry rules; PCT schedule search over small retry programs",
+        "Each generated program (returns, scripted retriable / non-retriable raises on chosen attempts, nested .result calls, parallelize groups, parallelize with common_args and heterogeneous per-call dicts; plain and direct_task flavours; max_retries 0..3; retry_for subsets) is run inline in dev sync mode and distributed on both stacks with the real runner loop in virtual time: outcomes (value or exception type+args) and per-node body-execution counts must be equal across modes and equal to the denotation (always-retriable: max_retries+1 executions then failure; success on attempt k: k executions; non-retriable: 1). A second part runs six retry programs under PCT schedules (two priority change points) on both stacks and compares the per-node execution counts with the denotation, which is what exposes attempts started from a stale retry count.",
         "Trusted: interpreter tasks and reference retry interpreter; programs with a raise below a group are compared by outcome class only (completion-order dependent); bounded liveness for the distributed runs.",
         "DESIGN.md 3 C19, A.13",
     ),
